@@ -143,6 +143,11 @@ Definition jchanged (m0 : jmodel) (k : key) (a : act gval) : bool :=
   end.
 Definition no_int (a : act gval) : bool := match a with Put (GInt _) => false | _ => true end.
 
+(* the data a delete listener receives: the stored entry as Value() would give it (unmarshalled
+   into Type); it IS the stored entry when that is of the handler's Type *)
+Definition delete_view (c : cfg) (r : res) : res :=
+  match decode c r with Some r' => r' | None => r end.
+
 (* ---- index entries as a function of the stored value ---- *)
 Fixpoint idx_entries (i : N) (ks : list keyfn) (r : res) : list ent :=
   match ks with
